@@ -26,6 +26,8 @@ RULE = (
     "must be 1 exactly for its members, for every strategy / reindex. Non-trivial = >=2 blocks and >=2 labels with "
     "different block sets."
 )
+FUZZ_TARGET = "c09"  # thorough tier: 8 atheris shards on find_group_cohorts with the validity predicate as oracle
+FUZZ_RUNS = 60000
 BUDGET = {"quick": 500, "thorough": 3000}
 ASSUMPTIONS = [
     "code arrays whose elements are all -1 (no present label) are skipped (degenerate input recorded under C02's known finding)",
